@@ -149,7 +149,7 @@ impl<T> MiniVec<T> {
   }
 
   fn alignment(&self) -> usize {
-    if self.capacity() == 0 {
+    if self.is_default() {
       max_align::<T>()
     } else {
       self.header().alignment
